@@ -359,7 +359,8 @@ def render_mutation(m):
             args.append('model_names=%s' % pyval(m['model_names']))
         return 'RenameAppLabel(%s)' % ', '.join(args)
     if op == 'SQLMutation':
-        return 'SQLMutation(%s, %s)' % (pyval(m['tag']), pyval(m['sql']))
+        return 'SQLMutation(%s, %s, update_func=_noop)' % (
+            pyval(m['tag']), pyval(m['sql']))
     if op == 'MoveToDjangoMigrations':
         return 'MoveToDjangoMigrations(mark_applied=%s)' % pyval(
             m.get('mark_applied', ['0001_initial']))
@@ -376,7 +377,8 @@ def render_evolution_file(evo):
     """evo: {'label', 'mutations': [...], 'deps': {NAME: value}}"""
     lines = ['from django.db import models',
              'from django_evolution.mutations import (%s)'
-             % ', '.join(MUTATION_NAMES), '']
+             % ', '.join(MUTATION_NAMES), '', '',
+             'def _noop(simulation):', '    pass', '']
     for k in sorted(evo.get('deps') or {}):
         lines.append('%s = %s' % (k, deps_text(evo['deps'][k])))
     lines.append('')
